@@ -28,7 +28,7 @@ ASSUMPTIONS = [
 ]
 REQUIRED = {"all": ["regime:uncharged", "regime:one_charge_type", "regime:no_neutrals", "regime:mixed_lt18_neutrals",
                     "regime:mixed_ge18_neutrals", "boundary_n0_17", "boundary_n0_18", "tie_block_lengths",
-                    "permutant_validated"]}
+                    "permutant_validated", "permutant_after_value_same_object"]}
 NMAX = {"quick": 24, "thorough": 40}
 NRANDOM = {"quick": 120, "thorough": 1200}
 EXTRA = [(3, 3, 17), (3, 3, 18), (3, 3, 19), (1, 1, 18), (5, 2, 18), (2, 5, 30), (4, 4, 24), (10, 10, 17),
@@ -80,9 +80,20 @@ def judge(case, rep, S):
         presentations.append(gen.spell(rng, base))
     # (a) composition-only, fresh object per presentation
     values = []
+    first_obj = None
     for s in presentations[:3]:
-        values.append(S["SP"](s).get_deltaMax())
+        o = S["SP"](s)
+        first_obj = first_obj or o
+        values.append(o.get_deltaMax())
     v0 = values[0]
+    # the permutant must also come with the value when the value alone was asked for first (same object)
+    again = first_obj.get_deltaMax(True)
+    rep.cnt("permutant_after_value_same_object")
+    if not (isinstance(again, tuple) and len(again) == 2 and isinstance(again[1], str)
+            and Counter(again[1]) == Counter(presentations[0]) and M.close(again[0], v0, rel=1e-12, ab=0.0)
+            and M.close(M.delta_float(M.pattern(again[1])), v0)):
+        rep.viol("permutant_after_value", "get_deltaMax() then get_deltaMax(True) on one object built from %s returned %r (value alone was %r)" % (
+            presentations[0], again, v0), sig={"regime": reg, "dmax_is_zero": v0 == 0})
     for s, v in zip(presentations, values):
         if not M.close(v, v0, rel=1e-12, ab=0.0):
             rep.viol("composition_only", "get_deltaMax differs between arrangements/spellings of %s: %r" % (
